@@ -2061,7 +2061,43 @@ def base_handle_verdict(ctx):
                             probs.append(f"{label}: the {role} routine (id {fid}) allocates a base handle nobody receives")
                 except (_PathEval.Unknown, _Raised, TypeError, KeyError, IndexError, AttributeError):
                     return None
-        return probs if ran >= 8 else None
+        # the .m side and the routines ask the same question: a class whose base is on the ignore list - the parent handed to the
+        # .m constructor emitter by wrap_instantiated_class decides `base_ptr = ...`, the routines look at the class itself
+        try:
+            from .rules_matlab import slice_eval
+            wic = prog.method("MatlabWrapper", "wrap_instantiated_class")
+            site = next((c for c in walk_no_nested(wic) if isinstance(c, ast.Call) and unparse(c.func) == "self.wrap_class_constructors"), None)
+            me, cls, *_ = _emitter_samples(ctx)
+            base = SampleObj(__kind__="Typename", name="Base", namespaces=["ns"], instantiations=[], qualified_name=lambda: "ns::Base", to_cpp=lambda: "ns::Base")
+            cls["parent_class"] = base
+            me["ignore_classes"] = ["ns::Base"]
+            me.setdefault("content", [])
+            bound = {}
+            if site is not None:
+                for p_, a_ in zip(ps[1:], site.args):
+                    bound[p_] = a_
+                for k_ in site.keywords:
+                    if k_.arg:
+                        bound[k_.arg] = k_.value
+            if ps[3] in bound:
+                wps = func_params(wic)
+                pname = slice_eval(wic, bound[ps[3]], dict(zip(wps, [me, cls, "ns."])), methods=methods, classes=classes, budget=60000)
+                text = mini_exec(wcc, _with_templates(ctx, dict(zip(ps, [me, "ns", cls, pname, list(cls["ctors"])[:2], False]))), budget=200000, methods=methods, classes=classes)
+                wm = me.get("wrapper_map")
+                captures = isinstance(text, str) and "base_ptr" in text
+                allocs = []
+                for fid in sorted(wm):
+                    if any(x in ("collectorInsertAndMakeBase", "constructor") for x in wm[fid] if isinstance(x, str)):
+                        r = mini_exec(gc, _with_templates(ctx, {func_params(gc)[0]: me, func_params(gc)[1]: fid}), budget=200000, methods=methods, classes=classes)
+                        allocs.append(isinstance(r, str) and "new SharedBase" in r)
+                if allocs:
+                    ran += 100
+                    if any(a_ != captures for a_ in allocs):
+                        probs.append(f"a class whose base is on the ignore list: the .m constructor {'captures' if captures else 'does not capture'} the base handle, "
+                                     f"{sum(allocs)} of {len(allocs)} routines allocate one")
+        except (_PathEval.Unknown, _Raised, TypeError, KeyError, IndexError, AttributeError, StopIteration):
+            pass
+        return probs if ran >= 108 else None
     return ctx._get("base_handle_verdict", mk)
 
 
